@@ -921,7 +921,15 @@ func (e *Exec) appendSym(s *SliceV, t Value) Value {
 		return nil
 	}
 	if !s.len.IsConst() {
-		return e.appendSymBoth(s, tlen, int(toff.val), tarr)
+		// usually the path condition fixes the destination length: then the cheap concrete-position code applies
+		if v, ok := e.uniqueValue(s.len); ok {
+			s = &SliceV{arr: s.arr, off: s.off, len: e.c64(v), cap: s.cap}
+			if tlen.IsConst() {
+				return nil
+			}
+		} else {
+			return e.appendSymBoth(s, tlen, int(toff.val), tarr)
+		}
 	}
 	e.noteRead(tarr.obj)
 	so := int(toff.val)
